@@ -62,3 +62,8 @@ pub fn catch<R>(f: impl FnOnce() -> R) -> Result<R, String> {
 pub fn quiet_panics() {
     std::panic::set_hook(Box::new(|_| {}));
 }
+
+/// how much larger than its base size a thorough run is (env `VERIF_THOROUGH_SCALE`, default 6)
+pub fn thorough_scale() -> usize {
+    std::env::var("VERIF_THOROUGH_SCALE").ok().and_then(|s| s.parse().ok()).unwrap_or(6)
+}
